@@ -26,16 +26,24 @@ RULE = ("projects of 2..9 packages generated on disk by harness/gen/jenkins_proj
         "(order permuted, inner paths), prefixes, isolate regexes, description modes, sandbox modes. A case is distinct "
         "by (recipe files, options); non-trivial if at least two package steps share a job name candidate.")
 ASSUMPTIONS = [
-    "nodes of the model are package steps keyed by Jenkins variant-id; package instances that share a variant-id have "
-    "the same valid dependencies (SHA-1 collision freedom, C02); the first instance in traversal order supplies names",
+    "nodes of the model are package steps keyed by Jenkins variant-id (the first instance in sanitize's traversal order "
+    "supplies names and dependencies); this is exact when all package instances with one Jenkins variant-id have "
+    "dependencies with the same Jenkins variant-ids. The harness walks all instances: where they differ (a dependency "
+    "inherits a sandbox that is not part of the dependent's variant-id) only names and the abstract job partition are "
+    "compared, and the crash this causes in genJenkinsJobs is reported by the oracle "
+    "(signature same-jenkins-variant-id-different-dependencies)",
     "checkout and build steps are flattened into their package step (sanitize passes them through with job=parentJob); "
-    "a checkout/build step never has the variant-id of a package step",
+    "a checkout/build step never has the variant-id of a package step (SHA-1 collision freedom)",
     "recipes whose package step is invalid while their build step is valid are not generated (genJenkinsJobs does not "
     "recurse into the tools of such a build step)",
     "_genJenkinsJobs' pruning (seenPackages, allVariantIds) is modelled as the closure of the roots under valid "
     "dependencies; genJenkinsBuildOrder's arbitrary set.pop() order is replaced by sorted order (result kind only)",
-    "second sentence of the property (PartialIR round trip) is checked differentially only, no theorem",
-    "Python's sorted() on str is code point order; names are ASCII (RECIPE_NAME_SCHEMA)",
+    "second sentence of the property (job specification round trip, Build-Ids) is checked differentially only, no theorem; "
+    "checkout results and fingerprint script outputs are supplied by the harness, Build-Ids are computed the way "
+    "LocalBuilder.__getBuildIdSingle/_getFingerprint do",
+    "Python's sorted() on str is code point order; names are ASCII (RECIPE_NAME_SCHEMA); the job name regex, its "
+    "replacement character, the '-' separator and the numbering offset are extracted from the source on every run",
+    "abstract jobs of the real calculation are observed by a recording subclass of AbstractJob installed from outside",
 ]
 
 HERE = os.path.dirname(os.path.abspath(__file__))
@@ -127,6 +135,24 @@ def directed():
     f["recipes/A.yaml"] = var("A", "C", "2")
     f["recipes/C.yaml"] = var("C", "E", "3")
     out.append(("propagate-merged", f, {"roots": ["root"], "prefix": "", "isolate": None, "short": False, "sandbox": "no"}))
+    # A(1) is met first below w1 and again below p (second parent): w1 -> A(1) ; B(1) -> p -> A(1) ; w2 -> A(2) -> B(2).
+    # B(1) reaches B(2) only if the second parent p was recorded at A(1)
+    f = _cfg()
+    f["recipes/root.yaml"] = ('root: True\ndepends:\n    - w1\n    - name: B\n      environment: {V: "1"}\n    - w2\n'
+                              'buildScript: "true"\npackageScript: "echo root"\n')
+    f["recipes/w1.yaml"] = 'depends:\n    - name: A\n      environment: {V: "1"}\nbuildScript: "true"\npackageScript: "echo w1"\n'
+    f["recipes/w2.yaml"] = 'depends:\n    - name: A\n      environment: {V: "2"}\nbuildScript: "true"\npackageScript: "echo w2"\n'
+    f["recipes/B.yaml"] = var("B", "p", "1")
+    f["recipes/p.yaml"] = 'depends: [A]\nbuildScript: "true"\npackageScript: "echo p"\n'
+    f["recipes/A.yaml"] = var("A", "B", "2")
+    out.append(("second-parent", f, {"roots": ["root"], "prefix": "", "isolate": None, "short": False, "sandbox": "no"}))
+    # the job that is met first is reached by the later one: m-b ; m-a -> x -> m-b
+    f = _cfg()
+    f["recipes/root.yaml"] = 'root: True\ndepends: [m-b, m-a]\nbuildScript: "true"\npackageScript: "echo root"\n'
+    f["recipes/m.yaml"] = ('multiPackage:\n    a:\n        depends: [x]\n        buildScript: "true"\n'
+                           '        packageScript: "echo m-a"\n    b:\n        packageScript: "echo m-b"\n')
+    f["recipes/x.yaml"] = 'depends: [m-b]\nbuildScript: "true"\npackageScript: "echo x"\n'
+    out.append(("reverse-order", f, {"roots": ["root"], "prefix": "", "isolate": None, "short": True, "sandbox": "no"}))
     # a tool: its provider must get a job although it is no argument of any step
     f = _cfg()
     f["recipes/root.yaml"] = ('root: True\ndepends:\n    - name: tp\n      use: [tools]\nbuildTools: [T]\n'
@@ -300,10 +326,10 @@ def oracle(ctx):
         cid = "directed-" + name
         cases.append({"id": cid, "dir": d, "opts": opts, "ir": True})
         meta[cid] = {"files": files, "opts": opts, "sub": ["directed", name]}
-    res = _run_children(ctx, cases, 4, max(20.0, ctx.time_left() - 45.0))
+    res = _run_children(ctx, cases, 7, max(20.0, min(75.0, ctx.time_left() - 50.0)))
     take(cases, meta, res)
     # the directed shapes without a name clash must give an acyclic job graph
-    for name in ("multi-ok", "propagate-grandparent", "propagate-merged", "tool-only", "isolate-multi"):
+    for name in ("multi-ok", "propagate-grandparent", "propagate-merged", "second-parent", "reverse-order", "tool-only", "isolate-multi"):
         ok = res.get("directed-" + name)
         if ok is not None and (ok["status"] != "ok" or ok.get("order") != "ok"):
             ctx.violation("the project '%s' (acyclic recipes, no name clash) does not give an acyclic job graph: %s"
@@ -311,9 +337,9 @@ def oracle(ctx):
                           dict(_record(meta["directed-" + name]), signature="directed-shape-fails"), "directed-shape-fails")
     # ---- generated stream, as much as fits (room is left for the correspondence)
     if ctx.time_left() > 40:
-        nproj = ctx.scale(260, 5000)
+        nproj = min(ctx.scale(260, 5000), max(10, int(ctx.time_left() * 3)))   # do not prepare what cannot run
         c2, m2 = _gen_batch(ctx, "gen", nproj, 3, 0.35)
-        limit = max(10.0, min((ctx.time_left() - 25.0) * 0.6, ctx.scale(70.0, 900.0)))
+        limit = max(5.0, min((ctx.time_left() - 30.0) * 0.6, ctx.scale(55.0, 900.0)))
         res = _run_children(ctx, c2, _workers(), limit)
         take(c2, m2, res)
     else:
@@ -375,10 +401,10 @@ def correspond(ctx):
     cache = _cache(ctx)
     results = list(cache["results"])
     # a second stream with other shapes of options (more root orders per project)
-    if ctx.time_left() > 45:
-        nproj = ctx.scale(120, 3000)
+    if ctx.time_left() > 40:
+        nproj = min(ctx.scale(120, 3000), max(5, int(ctx.time_left() * 2)))
         cases, meta = _gen_batch(ctx, "corr", nproj, 5, 0.0)
-        limit = max(15.0, min(ctx.time_left() - 25.0, ctx.scale(40.0, 500.0)))
+        limit = max(5.0, min(ctx.time_left() - 25.0, ctx.scale(30.0, 500.0)))
         res = _run_children(ctx, cases, _workers(), limit)
         for c in cases:
             o = res.get(c["id"])
